@@ -340,7 +340,14 @@ def conclude(prop, tier, t0, jobs, tlc_results, reports, traces=()):
                     foreign += 1
         for mm in rep["mismatches"]:
             mm = dict(mm, ptype=rep["ptype"], coll=rep["coll"], ctx=rep["ctx"])
-            if prop in vlib.owners(mm):
+            own = vlib.owners(mm)
+            # C18: a disagreement that occurs only when some argument or stored prefix carries host bits
+            # (never in a host-free row of the same table) shows that host bits are not ignored as keys
+            slot = f"{mm['kind']}/{mm['e'].get('a', '?')}"
+            if rep.get("per_kind", {}).get(slot, 0) > 0 and rep.get("per_kind_hostfree", {}).get(slot, 0) == 0 \
+                    and vlib.has_nonzero_host(mm.get("h")) | vlib.has_nonzero_host(mm.get("e")):
+                own = own | {"C18"}
+            if prop in own:
                 mine.append(mm)
             else:
                 foreign += 1
